@@ -72,6 +72,17 @@ def run(ctx: Ctx):
             ctx.violation("Taus.tau_exit_prob", "mutates-input", "input array modified", {"version": v})
         import tautie
         tautie.compare_exit_prob(ctx, fresh, raw, np.roll(b, 8), np.roll(le, 8), np.roll(P, 8))   # the 8 axis-end cases first
+        # ---- objects prepared first, used later: the object for this version was built at the start of the run, before the objects
+        # for the other versions (all three alive at once); it must give what the fresh object gives
+        _others = [make_taus(w) for w in VERSIONS if w != v]      # … and objects for the other versions are built again just before
+        P_old = np.asarray(taus[v].tau_exit_prob(b.copy(), le.copy()), dtype=np.float64)
+        ctx.count("prepared_first_used_later")
+        if P_old.shape != np.shape(P) or not np.array_equal(P_old, np.asarray(P, dtype=np.float64), equal_nan=True):
+            k_ = int(np.nonzero(~(P_old == np.asarray(P)))[0][0]) if P_old.shape == np.shape(P) else 0
+            ctx.violation("Taus.tau_exit_prob", "depends-on-other-objects-alive",
+                          f"a Taus object for table version {v} built before objects for the other versions gives another exit probability than a fresh object for version {v}",
+                          {"version": v, "built_after_it": [w for w in VERSIONS if w != v], "beta": float(b[k_]), "log_e_nu": float(le[k_]),
+                           "pexit_older_object": float(np.ravel(P_old)[k_]), "pexit_fresh_object": float(np.ravel(P)[k_])})
         # ---- "for all event batches": an event's exit probability does not depend on which classes of angle the rest of the batch
         # holds - sub-batches of only below-table angles, below + above, one below-table event, the exact-zero angle alone, only
         # above-table angles, against the values the same events got in the mixed batch (held against the raw table below)
